@@ -173,6 +173,15 @@ structure Row where
   rule : Rule
 deriving Repr
 
+/-- the row of class `c` -/
+def findRow (rows : List Row) (c : Nat) : Option Row := rows.find? (fun r => r.id == c)
+
+/-- the rule table as a function of the class id -/
+def ruleOf (rows : List Row) (c : Nat) : Rule :=
+  match findRow rows c with
+  | some r => r.rule
+  | none => Rule.default 0 0
+
 /-! executable size of trees (used by the driver only) -/
 mutual
 def sizeE {L : Type} : E L → Nat
